@@ -302,7 +302,7 @@ func TestVerif_C16_exec_gates(t *testing.T) {
 				case 1:
 					return &readerpkg.CurseInfo{CursedSourceChains: map[cciptypes.ChainSelector]bool{5: true}}, nil
 				case 2:
-					return nil, vErr
+					return nil, vErrNext()
 				}
 				return &readerpkg.CurseInfo{CursedSourceChains: map[cciptypes.ChainSelector]bool{}}, nil
 			}}
